@@ -252,8 +252,17 @@ for (n, d) in U11_WELL:
 for N in U11_ARB:
     M_COLUMN.harnesses.append(H("u11_arb_len%d" % N, "U11", kind="bounded", shape="unpack_node_* on %d arbitrary bytes" % N, bound="input length <= 25 bytes"))
 
+RC_POP = [0, 1, 2, 3, 8, 32]
+M_REFCOUNT = KModule("ref_count", "src/ref_count.rs", "verif_ref_count", "ref_count.rs",
+                     lambda: "\n".join("reader_harness!(#[kani::unwind(%d)] u9_refcount_pop%d, u9_refcount_body(%d));" % (k + 2, k, k) for k in RC_POP),
+                     deps=(M_LOG,))
+for k in RC_POP:
+    M_REFCOUNT.harnesses.append(H("u9_refcount_pop%d" % k, "U9", kind="proof" if k == 0 else "bounded",
+                                  tiers=("quick", "thorough") if k <= 2 else ("thorough",),
+                                  shape="RefCountTable::validate_plan, %d of the low 32 mask bits set" % k,
+                                  bound="popcount classes {0,1,2,3,8,32} of the low mask half"))
 M_INDEX.deps = (M_LOG,)
-KMODULES = {"index": M_INDEX, "table": M_TABLE, "log": M_LOG, "column": M_COLUMN}
+KMODULES = {"index": M_INDEX, "table": M_TABLE, "log": M_LOG, "column": M_COLUMN, "ref_count": M_REFCOUNT}
 
 
 def kmodule_of_unit(unit):
@@ -383,7 +392,7 @@ UNIT_META = {
                        "fmt::format stub (error text outside every claim)", "parking_lot slow paths unreachable (stubs panic: a checked side condition)"]},
     "U7": {"functions": ["column::Column::compress", "column::SIZES"], "assumes": ["compress is exercised with NoCompression; lz4/snappy are trusted to be inverse"]},
     "U8": {"functions": ["table::ValueTable::change_ref (counter-transition fragment)"], "assumes": ["fragment wrapped by a hand-written function (rule R8)"]},
-    "U9": {"functions": ["table::ValueTable::validate_plan", "index::IndexTable::{validate_plan,skip_plan}"],
+    "U9": {"functions": ["table::ValueTable::validate_plan", "index::IndexTable::{validate_plan,skip_plan}", "ref_count::RefCountTable::validate_plan"],
            "assumes": ["LogReader::read replaced by its contract (arbitrary bytes or failure)", "crc32fast::Hasher::new stubbed by its portable constructor"]},
     "U8d": {"functions": ["column::Column::write_existing_value_plan"],
             "assumes": ["ValueTable::{write_replace_plan,write_remove_plan,write_insert_plan,write_inc_ref,write_dec_ref} replaced by their contracts (recorders asserting the callee precondition); the contracts are checked on the real functions under U6/U8/U14",
